@@ -5,6 +5,16 @@ VERIF = os.path.dirname(os.path.dirname(os.path.abspath(__file__)))
 ALL = ['C%02d' % i for i in range(1, 21)]
 
 CHECKS = {
+ 'C04': dict(
+   technique="stateful property-based testing (Hypothesis RuleBasedStateMachine): generated Step/Solve/Set*/Finalize histories checked after every operation against the harness's own recorder of cost calls and callbacks",
+   text="Generated-history search over DE, DE2, Nelder-Mead and Powell: after every operation the evaluation counter must equal the number of calls the recording cost function received, the evaluation monitor must hold exactly those (x, cost) pairs in order, generations must equal completed iterations (callback count - 1), the energy history must be non-increasing within a segment of unchanged objective and end in bestEnergy, a stopped run's step monitor must have generations+1 records ending in the reported result, and each Step triggers at most one callback whose argument is the current best. Exploration: thousands of histories per run, shrunk traces replayable without Hypothesis.",
+   note="Trusted: the recording cost object (harness), Hypothesis; constraints come from an idempotent catalog and are kept compatible with the ranges in force (the property's precondition); after SetStrictRanges moved members in place, 'last record == reported result' is suspended until the next iteration (counted in evidence.excluded).",
+   design="DESIGN.md section 5, C04"),
+ 'C05': dict(
+   technique="stateful property-based testing (Hypothesis RuleBasedStateMachine) against an explicit model of the documented limit/termination semantics",
+   text="Same generated histories as C04 plus exit requests (through mystic._signal.Handler with input patched) and limit pairs incl. 0, 1, None, new=True/False. A Python model keeps the absolute limits as documented; before every Step it decides from its own counts whether the solver must refuse to start (limit reached, termination true, exit requested): then no cost call, no callback and a message; otherwise exactly one iteration. Solve runs under a callback guard (must return within the model's generation limit); stop messages must name a condition true of the final state. Exploration only; 'Solve always returns' is a bounded check.",
+   note="Trusted: the model's reading of SetEvaluationLimits (new=True counts from the call; None = nDim*nPop*scale, counted from the solver's next look at its limits when new), termination conditions themselves (checked by C10), the recorder.",
+   design="DESIGN.md section 5, C05"),
  'C10': dict(
    technique="property-based testing (Hypothesis @given): generated fake solver states x generated And/Or/When trees, checked against the documented inequalities evaluated directly and recursive all/any",
    text="Generated-input search: every built-in condition is compared with its documented inequality (three-valued oracle; undecided inf-inf cases excluded and counted) on generated histories incl. plateaus, ties, +-inf, windows 0/None/longer than the history and tolerances exactly on the boundary; And/Or/When trees to depth 4 are compared with recursive all/any, info strings must name exactly satisfied leaves, and every leaf is rebuilt from type()/state() and must behave identically. Exploration only: held on all generated cases, no proof of absence.",
